@@ -239,6 +239,10 @@ func guardedBy(r *R, rule string, specs []guardSpec, outOfScope map[string]strin
 		for _, fn := range fns {
 			for _, s := range callers[fn] {
 				held := lockRegions(p, fn)[s.(ssa.Instruction)]
+				if !held[lk+"/W"] && callersHold(p, fn, lk, true, 3) {
+					r.c.OK(rule, "locked-callee:"+callee+"←"+core.ShortFn(fn), p.InstrPos(s), "called from a helper all of whose callers hold "+lk)
+					continue
+				}
 				r.c.Check(held[lk+"/W"], rule, "locked-callee:"+callee+"←"+core.ShortFn(fn), p.InstrPos(s), "called with "+lk+" held", callee+" must be called with "+lk+" held for writing; "+core.ShortFn(fn)+" calls it holding {"+strings.Join(held.ids(), ",")+"}")
 			}
 		}
